@@ -71,6 +71,11 @@ def lean_gate(run, theorems):
         (' && lake env leanchecker Props DroopProofs' if run.tier == 'thorough' else '')
     cov['trusted_base'] = list(common.TRUSTED_BASE)
     run.theorems = theorems
+    if not theorems:
+        # no theorem is claimed for this property yet: the evidence says so instead of posing as a proof
+        run.level = 'other'
+        cov['explanation'] = ('no property theorem registered in lean/theorems.json for this property yet: decided by the correspondence between the Lean '
+                              'model and /repo plus the compiled Lean oracle evaluated on implementation observations (exploration, not proof)')
     if run.tier == 'thorough' and ok and os.environ.get('VERIF_LEANCHECKER', '1') == '1':
         import subprocess
         r = subprocess.run(['lake', 'env', 'leanchecker', 'Props'], cwd=common.LEAN, capture_output=True, text=True)
